@@ -63,6 +63,37 @@ theorem C04_init_in_step {π : Type} (src : Source π) (store : Store π) (anjah
     rw [a, c]
     omega
 
+/-- **Start year and first simulated day.** The arrays loaded before the loop are those of
+`StartYear` (`J = StartYear − 1900`); the first statement of the first pass ends the run when the
+calendar year of the first simulated day is another year — the weather of `StartYear` is never
+consumed under the dates of another year. -/
+theorem C04_start_year_mismatch_is_error {π : Type} (src : Source π) (n : Nat) (st : DState π)
+    (y m d : Nat) (hk : kalenderDate st.zeit = some (y, m, d)) (hne : y ≠ 1900 + st.j) :
+    runLoop src (n + 1) st = none := by
+  simp [runLoop, startYearOk, hk, hne]
+
+/-- The same for the whole run, both kinds of layout: `StartYear` ≠ year of the start day ⇒ error. -/
+theorem C04_start_year_mismatch_ends_run {π : Type} (recs : List (Rec π))
+    (files : Nat → Option (List (Nat × π))) (anjahr cap beginn itag n y m d : Nat)
+    (hk : kalenderDate beginn = some (y, m, d)) (hy : 1900 ≤ anjahr) (hne : y ≠ anjahr) :
+    runMulti recs anjahr cap beginn itag (n + 1) = none ∧ runPerYear files anjahr beginn itag (n + 1) = none := by
+  have hne' : y ≠ 1900 + (anjahr - 1900) := by omega
+  constructor
+  · unfold runMulti
+    split
+    · rfl
+    · split
+      · rfl
+      · rename_i st hs
+        obtain ⟨a, b⟩ := initState_fields hs
+        exact C04_start_year_mismatch_is_error _ n st y m d (by rw [a]; exact hk) (by rw [b]; exact hne')
+  · unfold runPerYear
+    split
+    · rfl
+    · rename_i st hs
+      obtain ⟨a, b⟩ := initState_fields hs
+      exact C04_start_year_mismatch_is_error _ n st y m d (by rw [a]; exact hk) (by rw [b]; exact hne')
+
 /-- One pass that returns no error never loses a day: ZEIT is untouched by the weather bookkeeping
 and the counters move to the next slot, or to slot 1 of the next year — the latter only when the
 loaded weather reaches the last day of the calendar year. -/
@@ -310,6 +341,9 @@ example : LockPre ({ zeit := masdat 81 1 1 + 10, tagNum := 10, j := 81, jtag := 
 -- … and a successful run exists (three days in January without a year change)
 example : (runDays (.multi 0) 3 ({ zeit := masdat 81 1 1 + 10, tagNum := 10, j := 81, jtag := 365, g := [], store := {} } : DState Nat)).map
     (fun ds => ds.map (fun d => (d.j, d.tagNum, d.jtag))) = some [(81, 11, 365), (81, 12, 365), (81, 13, 365)] := by decide
+-- StartYear 1980, first simulated day 1 January 1981, weather of both years present: error
+example : kalenderDate (masdat 81 1 1) = some (1981, 1, 1) := by decide
+example : (runMulti ([⟨1980, 366, 1⟩, ⟨1981, 1, 2⟩, ⟨1981, 2, 3⟩] : List (Rec Nat)) 1980 2 (masdat 81 1 1) 1 2).isNone = true := by decide
 -- a gap-free series across a year end that starts before the start year
 example : GapFree ([⟨1980, 366, 1⟩, ⟨1981, 1, 2⟩, ⟨1981, 2, 3⟩] : List (Rec Nat)) ∧
     ∀ r ∈ ([⟨1980, 366, 1⟩, ⟨1981, 1, 2⟩, ⟨1981, 2, 3⟩] : List (Rec Nat)), ValidRec r := by decide
